@@ -1038,6 +1038,21 @@ def check_entries(ctx):
             label = tname + "[" + ",".join(f"{k}={getattr(v, '__name__', v)}" for k, v in kw.items()) + "]"
             f_ = (lambda tn, kw_: lambda e, b, a: getattr(T, tn)(xi, epsilon=e, bounds=b, accountant=a, **kw_))(tname, kw)
             entries.append(("tool", label, True, f_, [(1.0, b) for b in small_inv]))
+    # invalid parameters must be refused whatever the DATA looks like (empty, all-equal, a single record): a special-case
+    # branch for degenerate data must not come before the validation
+    degenerate = [("empty", np.array([])), ("empty-0x2", np.zeros((0, 2))), ("all-equal", np.full(40, 0.5)),
+                  ("single", np.array([0.5]))]
+    for dname, arr in degenerate:
+        for tname in ("sum", "nansum", "mean", "nanmean", "var", "nanvar", "std", "nanstd", "median"):
+            f_ = (lambda tn, a_: lambda e, b, a: getattr(T, tn)(a_, epsilon=e, bounds=b, accountant=a))(tname, arr)
+            entries.append(("tool", f"{tname}[data={dname}]", True, f_,
+                            [(e, (0, 1)) for e in (NAN, -1.0, -5e-324, "1", None, 0, 0.0)] +
+                            [(1.0, b) for b in ((1, 0), (0.9, 0.1), (math.nextafter(1.0, INF), 1.0))]))
+        f_ = (lambda a_: lambda e, b, a: T.quantile(a_, 0.5, epsilon=e, bounds=b, accountant=a))(arr)
+        entries.append(("tool", f"quantile[data={dname}]", True, f_,
+                        [(e, (0, 1)) for e in (NAN, -1.0, "1", 0)] + [(1.0, (1, 0))]))
+        f_ = (lambda a_: lambda e, b, a: T.histogram(np.ravel(a_), epsilon=e, bins=3, range=(0, 1), accountant=a))(arr)
+        entries.append(("tool", f"histogram[data={dname}]", False, f_, [(e, (0, 1)) for e in (NAN, -1.0, "1", 0)]))
     for ent in entries:
         group, name, has_bounds, f = ent[:4]
         if len(ent) > 4:
@@ -1172,6 +1187,16 @@ def replay(ctx, data):
             f = calls[d["entry"]][1]
         else:       # keyword-crossed tool entry "sum[dtype=int,axis=0]"
             tn, rest = d["entry"].split("[", 1)
+            if rest.startswith("data="):
+                arr = {"empty": np.array([]), "empty-0x2": np.zeros((0, 2)), "all-equal": np.full(40, 0.5),
+                       "single": np.array([0.5])}[rest[5:-1]]
+                if tn == "quantile":
+                    f0 = lambda e, b, a: T.quantile(arr, 0.5, epsilon=e, bounds=b, accountant=a)  # noqa: E731
+                elif tn == "histogram":
+                    f0 = lambda e, b, a: T.histogram(np.ravel(arr), epsilon=e, bins=3, range=(0, 1), accountant=a)  # noqa: E731
+                else:
+                    f0 = lambda e, b, a: getattr(T, tn)(arr, epsilon=e, bounds=b, accountant=a)  # noqa: E731
+                rest = ""
             kw = {}
             for item in rest.rstrip("]").split(",", ):
                 pass
@@ -1182,6 +1207,8 @@ def replay(ctx, data):
                 kw[k] = (0, 1) if v == "(0, 1)" else names[v]
             xi = (np.arange(60).reshape(30, 2) % 8) + 1
             f = (lambda tn_, kw_: lambda e, b, a: getattr(T, tn_)(xi, epsilon=e, bounds=b, accountant=a, **kw_))(tn, kw)
+            if d["entry"].split("[", 1)[1].startswith("data="):
+                f = f0
         acc = dp.BudgetAccountant(100.0, 0.0, spent_budget=[(0.5, 0.0)])
         before = acc_state(acc)
         with seams.fresh_default_accountant():
